@@ -250,6 +250,12 @@ def run(pid, tier, replay_file=None):
     if pid == "C07" and not replay_file:
         import checks_desc
         desc_cov = checks_desc.collect(rep, tier)
+        import checks_refs
+        refs_cov = checks_refs.collect(rep, "C07", tier)
+        desc_cov["reference_graphs"] = refs_cov
+        desc_cov["desc_states"] += refs_cov["states"]
+        desc_cov["desc_transitions"] += refs_cov["transitions"]
+        desc_cov["desc_replayed"] += refs_cov["traces_validated_against_impl"]
     bfs, sim, seed = info.get("bfs", {}), info.get("sim", {}), info.get("seed", {})
     if not replay_file and len(nontrivial) < 2:
         raise MachineryError("vacuity: no non-trivial case")
